@@ -2,6 +2,7 @@ package languages
 
 import (
 	"fmt"
+	"sort"
 	"strings"
 
 	"github.com/grafana/cog/internal/ast"
@@ -170,7 +171,16 @@ func (generator *ConverterGenerator) FromBuilder(context Context, builder ast.Bu
 		return generator.convertOption(context, converter, option)
 	})
 
-	for _, opts := range generator.listOfDisjunctionOptions {
+	// lists of disjunctions are converted in a defined order: ranging over the
+	// map would make the order of the mappings change from run to run.
+	disjunctionPaths := make([]string, 0, len(generator.listOfDisjunctionOptions))
+	for path := range generator.listOfDisjunctionOptions {
+		disjunctionPaths = append(disjunctionPaths, path)
+	}
+	sort.Strings(disjunctionPaths)
+
+	for _, path := range disjunctionPaths {
+		opts := generator.listOfDisjunctionOptions[path]
 		converter.Mappings = append(converter.Mappings, generator.convertListOfDisjunctionOptions(context, converter, opts))
 	}
 
